@@ -655,7 +655,7 @@ func explore(prog *Program, cfg *Config, harness string) *HarnessResult {
 		}
 	}
 	if hr.Truncated {
-		hr.Incon = append(hr.Incon, fmt.Sprintf("exploration truncated at %d paths (bound)", hr.Paths+hr.Infeasible))
+		hr.Incon = append(hr.Incon, fmt.Sprintf("exploration truncated at %d paths after %.0fs (path / wall-clock bound)", hr.Paths+hr.Infeasible, hr.Wall.Seconds()))
 	}
 	sort.Strings(hr.Incon)
 	return hr
